@@ -235,7 +235,7 @@ def _xor3(V, i):
 
 
 for _i, _n in enumerate(X3):
-    ob('xor3/' + _n, marks=['accept', 'reject'], budget=(60, 200),
+    ob('xor3/' + _n, marks=['accept', 'reject'], budget=(100, 300),
        bounds='OneOf(A, B, C), A=%s, B and C solver-picked among the non-exact-type leaves (Ge, Lt, ListInt, Str, '
               'Bool, Int) in either order: accepts iff exactly one accepts' % _n)(
         (lambda i: lambda V: _xor3(V, i))(_i))
